@@ -1075,6 +1075,24 @@ fn trim_stub(s: &str) -> &str {
     }
     unsafe { str::from_utf8_unchecked(&b[i..j]) }
 }
+/// same models for the one-sided variants, so that a change from `trim` to `trim_start` / `trim_end` in the code under
+/// test is decided quickly (the real Unicode-aware functions over copied strings are what makes CBMC slow here)
+fn trim_start_stub(s: &str) -> &str {
+    let b = s.as_bytes();
+    let mut i = 0;
+    while i < b.len() && b[i] == b' ' {
+        i += 1;
+    }
+    unsafe { str::from_utf8_unchecked(&b[i..]) }
+}
+fn trim_end_stub(s: &str) -> &str {
+    let b = s.as_bytes();
+    let mut j = b.len();
+    while j > 0 && b[j - 1] == b' ' {
+        j -= 1;
+    }
+    unsafe { str::from_utf8_unchecked(&b[..j]) }
+}
 macro_rules! hdr_harness {
     ($(#[$m:meta])* fn $name:ident() $body:block) => {
         $(#[$m])*
@@ -1119,6 +1137,8 @@ macro_rules! custom_harness {
         #[kani::stub(alloc::fmt::format, format_stub)]
         #[kani::stub(<f64 as alloc::string::ToString>::to_string, to_string_stub)]
         #[kani::stub(str::trim, trim_stub)]
+        #[kani::stub(str::trim_start, trim_start_stub)]
+        #[kani::stub(str::trim_end, trim_end_stub)]
         fn $name() $body
     };
 }
@@ -1142,6 +1162,28 @@ fn headers_custom_header_cells_trimmed() {
     let req = ["b"];
     match RangeDeserializerBuilder::with_headers(&req).from_range::<Data, Skip>(&s.range) {
         Ok(it) => assert!(it.column_indexes.len() == 1 && it.column_indexes[0] == 1),
+        Err(_) => assert!(false),
+    }
+}
+}
+custom_harness! {
+/// leading white space on the sheet side: " a", "b " and the request ["a"] select column [0]
+fn headers_custom_header_cell_leading_space() {
+    let s = std::mem::ManuallyDrop::new(hsheet(" a", "b ", Data::Int(kani::any()), Data::Int(kani::any())));
+    let req = ["a"];
+    match RangeDeserializerBuilder::with_headers(&req).from_range::<Data, Skip>(&s.range) {
+        Ok(it) => assert!(it.column_indexes.len() == 1 && it.column_indexes[0] == 0),
+        Err(_) => assert!(false),
+    }
+}
+}
+custom_harness! {
+/// padding on both sides of the requested name: "a", "b" and the request [" a "] select column [0]
+fn headers_custom_request_padded_both_sides() {
+    let s = std::mem::ManuallyDrop::new(hsheet("a", "b", Data::Int(kani::any()), Data::Int(kani::any())));
+    let req = [" a "];
+    match RangeDeserializerBuilder::with_headers(&req).from_range::<Data, Skip>(&s.range) {
+        Ok(it) => assert!(it.column_indexes.len() == 1 && it.column_indexes[0] == 0),
         Err(_) => assert!(false),
     }
 }
